@@ -110,6 +110,37 @@ def is_channel(mm):
         return True
 
 
+#: configuration keys in the "calculation" section on which
+#: :func:`compute_emodulus` dispatches or which it passes on
+EMODULUS_CONFIG_KEYS = [
+    "emodulus lut",
+    "emodulus medium",
+    "emodulus temperature",
+    "emodulus viscosity",
+    "emodulus viscosity model",
+]
+
+
+def emodulus_requirements(mm):
+    """Requirement function for all emodulus scenarios
+
+    Returns False if the measurement was not performed in the channel
+    (see :func:`is_channel`). Otherwise, the current values of all
+    "emodulus" configuration keys are returned. `compute_emodulus`
+    decides on its own which of these keys it uses (e.g. it uses
+    "emodulus viscosity" instead of "emodulus temperature" for
+    `medium="other"`), regardless of the `req_config` of the scenario
+    that was selected via its priority. Returning the values here makes
+    them part of the hash in :func:`AncillaryFeature.hash`, such that
+    cached data are recomputed when any of them is set, changed,
+    or removed.
+    """
+    if not is_channel(mm):
+        return False
+    calccfg = mm.config["calculation"]
+    return [(key, calccfg.get(key)) for key in EMODULUS_CONFIG_KEYS]
+
+
 def register():
     # Please note that registering these things is a delicate business,
     # because the priority has to be chosen carefully.
@@ -131,7 +162,7 @@ def register():
                                      ["imaging", ["pixel size"]],
                                      ["setup", ["flow rate", "channel width"]]
                                      ],
-                         req_func=is_channel,
+                         req_func=emodulus_requirements,
                          priority=4 + pr)
         AncillaryFeature(feature_name="emodulus",
                          data="case A",
@@ -143,7 +174,7 @@ def register():
                                      ["imaging", ["pixel size"]],
                                      ["setup", ["flow rate", "channel width"]]
                                      ],
-                         req_func=is_channel,
+                         req_func=emodulus_requirements,
                          priority=0 + pr)
 
     AncillaryFeature(feature_name="emodulus",
@@ -156,5 +187,5 @@ def register():
                                  ["imaging", ["pixel size"]],
                                  ["setup", ["flow rate", "channel width"]]
                                  ],
-                     req_func=is_channel,
+                     req_func=emodulus_requirements,
                      priority=2)
